@@ -90,6 +90,25 @@ def run(ctx):
             io = fl.origins(nt['args'][0]) | iterated_collection(fl, nb)
             if any(o.kind == 'call' and o.key == 'reconcile::reconcile' for o in io):
                 uses += 1
+        # the same walk written as an adaptor chain that was not unfolded into a loop (`plan.iter().map(apply).filter_map(..).find(..)`):
+        # a consuming call whose receiver derives from the reconcile() result through adaptor calls
+        for cb_, ct_ in fl.calls(lambda c: c.split('::')[-1] in ('find', 'find_map', 'for_each', 'try_for_each', 'fold', 'try_fold', 'any', 'all', 'last', 'count', 'position')):
+            work, seen_, hit = [ct_['args'][0]] if ct_['args'] else [], set(), False
+            while work and len(seen_) < 60 and not hit:
+                cur = work.pop()
+                if cur['k'] == 'const':
+                    continue
+                for o in fl.origins(cur):
+                    k_ = (o.kind, str(o.key), o.bb)
+                    if k_ in seen_:
+                        continue
+                    seen_.add(k_)
+                    if o.kind == 'call' and o.key == 'reconcile::reconcile':
+                        hit = True
+                    elif o.kind == 'call' and o.bb is not None and str(o.key).startswith(('std::iter::', 'std::slice::', 'core::slice::', 'std::vec::', 'std::ops::Deref')):
+                        work += [a for a in b.blocks[o.bb]['term'].get('args', [])[:1] if a['k'] != 'const']
+            if hit:
+                uses += 1
         ok = uses >= 2
         if not ok and uses == 1 and any((callee(t_) or '').endswith('::partition') for _, t_ in fl.calls(lambda c: True)):
             ctx.undecided('C15.R5', 'run_bisync lists the plan and applies a partition of it: that both halves are handled is not decided')
